@@ -44,6 +44,9 @@ def vary_rare_parameters(rng, cfg, p=0.15):
             cfg["gtol_linesearch"] = 0.9
         cfg["xtol_linesearch"] = float(pick_(rng, [1e-8, 1e-3, 0.1, 0.5, 0.0]))
         cfg["_rare"] = True
+    if rng.random() < p and "eps_SY" not in cfg:
+        # the curvature threshold of the memory far below machine precision (or zero: any positive curvature is accepted), or large
+        cfg["eps_SY"] = float(pick_(rng, [0.0, 1e-300, 1e-30, 1e-3, 0.5]))
     return cfg
 
 
